@@ -130,7 +130,9 @@ class Exec(BufMixin, FlatMixin):
         nm = name or '%s:%s@%d' % (fr.fname if fr else '?', kind, lineno)
         for (h, g, sk) in smt.to_goals(form):
             g = simp(g)
-            ob = Obligation(nm, kind, fr.fname if fr else '?', lineno, list(st.pc) + list(h), list(st.qfacts), g, sk, clause)
+            hq = [x for x in h if isinstance(x, smt.QFact)]
+            h = [x for x in h if not isinstance(x, smt.QFact)]
+            ob = Obligation(nm, kind, fr.fname if fr else '?', lineno, list(st.pc) + list(h), list(st.qfacts) + hq, g, sk, clause)
             ob.flatten = smt.FLATTEN[0]
             if splits:
                 # proof-by-cases hint of the contract: bound variable name -> terms it should be compared with
